@@ -450,7 +450,7 @@ def c10(ctx):
     mc_writer(ctx, ["Inv_C10"], 4, "all")
     if not ctx.quick:
         mc_writer(ctx, ["Inv_C10"], 5, "core", name="MC_Writer5")
-    writer_check(ctx, "C10", ["writer:calls", "writer:rt_small", "writer:present"])   # the monitor re-parses the destination after every call: no 16 KiB payloads here
+    writer_check(ctx, "C10", ["writer:calls", "writer:rt_small", "writer:present", "writer:flush_open"])   # the monitor re-parses the destination after every call: no 16 KiB payloads here
     ctx.rule = "one evaluation = one writer run observed after every call (result, bytes handed to the destination); the monitor P_C10 re-parses the destination with the reader design at every quiescent point"
 
 
